@@ -784,6 +784,10 @@ func (v Value) toReflectValue(typ reflect.Type) (reflect.Value, error) {
 		// An integer element does not accept a fraction, of either sign and
 		// also when it comes from a numeric string. (NaN is still stored as 0:
 		// Test_reflectMap pins that behaviour.)
+		if v.IsObject() {
+			// ToNumber once: the number that is checked is the number that is stored.
+			v = float64Value(v.float64())
+		}
 		if value := v.float64(); !math.IsNaN(value) && !math.IsInf(value, 0) && value != math.Trunc(value) {
 			return reflect.Value{}, fmt.Errorf("RangeError: %v to reflect.Kind: %v", value, kind)
 		}
